@@ -83,6 +83,7 @@ class Box:
     def __init__(self, obj):
         self.obj = obj
         self.aliased = False  # some object is stored under two keys (names are then not comparable)
+        self.other = None  # (another Datagroup sharing member objects with obj, its expected description)
 
 
 def index_objects(name, n):
@@ -158,6 +159,10 @@ class Spec:
         # non-initial start states: a group that held members and was emptied again, by each way of removing
         for how in ("pop", "del", "clear", "del-then-pop"):
             ops.append(["ctor_emptied", how])
+        # another group that holds some of the same member objects (the same Array inserted twice, a shallow copy) next to a member of its own:
+        # whatever is done to this group afterwards, the other group's rows stay where they are
+        ops.append(["share_into_other_group", "insert"])
+        ops.append(["share_into_other_group", "copy"])
         # the same object reachable twice in one group
         ops.append(["alias", "a", "c"])
         ops.append(["alias", "c", "b"])
@@ -192,7 +197,8 @@ class Spec:
                 a = np.asarray(p._array)
                 b = a.base
                 layout.append([bool(a.flags.c_contiguous), list(a.strides), None if b is None else [list(np.shape(b)), int(a.__array_interface__["data"][0] - np.asarray(b).__array_interface__["data"][0])]])
-        return [[[k, describe(g._container[k])] for k in g._container], same, impl.aliased, hidden, layout]
+        other = None if impl.other is None else [[k, describe(v)] for k, v in impl.other[0].items()]
+        return [[[k, describe(g._container[k])] for k in g._container], same, impl.aliased, hidden, layout, other]
 
     # -- model helpers
     @staticmethod
@@ -287,6 +293,22 @@ class Spec:
                 if r == "reject":
                     break
             ret = rets
+        elif name == "share_into_other_group":
+            if not model or self.mshape(model) in (None, ()):
+                ret = "disabled"
+            else:
+                n = self.mshape(model)[0]
+                if op[1] == "copy":
+                    other = g.copy()
+                else:
+                    other = osyris.Datagroup()
+                    for k in g.keys():
+                        other[k] = g[k]
+                    # inserting renames the shared objects to the same keys: nothing changes for g
+                shp = tuple(self.mshape(model))
+                other["own"] = osyris.Array((np.arange(int(np.prod(shp)), dtype=np.float64) + 0.5).reshape(shp), unit="s")
+                impl.other = (other, [[k, describe(v)] for k, v in other.items()])
+                ret = "shared"
         elif name in ("alias", "alias_component"):
             src, dst = op[1], op[2]
             if src not in model or src == dst:
@@ -413,6 +435,15 @@ class Spec:
             elif _strip_values(got) != _strip_values(want) and not impl.aliased:
                 sig = "C06:unit-name-dtype-or-shape-not-preserved"
             problems.append((sig + ":" + name, {"got": got, "want": want, "after": op}))
+        # the other group sharing member objects: all of its rows as they were when it was made
+        if impl.other is not None and name not in ("share_into_other_group", "ctor", "ctor_emptied"):
+            og, odesc = impl.other
+            now = [[k, describe(v)] for k, v in og.items()]
+            if strip_names(now) != strip_names(odesc):
+                problems.append((f"C06:group-sharing-member-objects-changed-by:{name}", {"after": op, "other_now": now, "other_before": odesc}))
+                impl.other = None
+        if name in ("ctor", "ctor_emptied"):
+            impl.other = None
         # invariant: every member has the group's shape
         shapes = {k: tuple(v.shape) for k, v in g.items()}
         if len(set(shapes.values())) > 1 or any(s != tuple(g.shape) for s in shapes.values()):
